@@ -37,13 +37,13 @@ CLAIMED = {
             "correspondence of _clean_algorithm and _refine_algorithm_list with the extracted functions; store_object histories on one instance checked against coreutils/hashlib digests.",
             "DESIGN.md section 6 C02", None),
     "C15": ("Coq proof: sharding comprehension = README layout for all depth/width/strings (Shard.v), reference-list byte format (RefsCodec.v); P-shard/P-layout correspondence",
-            "shard_eq_spec, shard_concat, shard_injective, add_exact, split_unparse over all inputs; whole store trees for sampled configurations compared with the extracted shard function and with an independent README-layout implementation.",
+            "shard_eq_spec, shard_concat, shard_injective, add_exact, split_unparse over all inputs; Layout.render (the four path builders + deletion markers) contained / injective / prefix-free for every configuration; whole store trees for sampled configurations compared with the extracted shard function and with an independent README-layout implementation.",
             "DESIGN.md section 6 C15", None),
     "C17": ("Coq proof: argument checks as total functions with iff-characterisations (Args.v), rejected/read-only calls issue no mutating operation (SeqProps); P-args correspondence",
             "check_*_ok_iff, first-failure order, rejected_pure / readonly_pure / unknown_pid_pure for every world; grammar of invalid values (one and two at a time) compared class-by-class with the model, with byte-for-byte tree snapshots (incl. directories and mtimes) before/after.",
             "DESIGN.md section 6 C17", None),
     "C18": ("Coq proof: reference-list codec over arbitrary code points with abstract whitespace (RefsCodec.v), shard tokens drawn from the digest only; P-refs/P-checkstr correspondence",
-            "lines_codec, member_exact, remove_exact, prefix/suffix non-aliasing for all identifier lists; _is_string_in_refs_file/_update_refs_file/_check_string compared with the extracted functions on adversarial related identifiers; bystander search with independent hash-derived location check.",
+            "lines_codec, member_exact, remove_exact, prefix/suffix non-aliasing for all identifier lists; every rendered path component is a fixed directory name or hex (+_delete), never '..' or containing '/', and distinct addresses never share a path (Layout.v); _is_string_in_refs_file/_update_refs_file/_check_string compared with the extracted functions on adversarial related identifiers; bystander search with independent hash-derived location check.",
             "DESIGN.md section 6 C18", None),
     "C01": ("Coq proof: stream chunking / reassembly for all buffer sizes and contents, stream restore, cid = H(content) (StreamModel.v) + retrieve_stable by refinement over all histories; P-stream correspondence",
             "chunks_concat/chunks_bounds/stream_restores/store_cid_size for every content, buffer size > 0 and data kind; retrieve_stable over arbitrary histories of other calls (refinement); "
